@@ -728,6 +728,9 @@ func a2Problems(p *Prog, c *PktClosure) (problems []string, nEff, nRet int) {
 						}
 						continue
 					}
+					if n0 != nil && lengthThroughHelper(p, nV, n0) {
+						continue // the per-read work moved into a helper that is given n and hands it back
+					}
 					if n0 == nil || p.origin(nV) != ssa.Value(n0) {
 						if p.nilnessAtConstNil(errV) || p.origin(errV) == ssa.Value(fe) || true {
 							problems = append(problems, fmt.Sprintf("length changed: the successful return at %s reports %s instead of the length the wrapped reader returned", rpos, valueString(nV)))
@@ -1289,6 +1292,9 @@ func a4ReadBuffer(p *Prog, o *obls, c *PktClosure, key string) {
 							continue // destination of a marshal: not a read of stale bytes
 						}
 					}
+					if helperSlicesToLength(p, x, B, isN) {
+						continue // the helper is handed the buffer together with the length read and only looks at buffer[:n]
+					}
 					problems = append(problems, fmt.Sprintf("%s passes the whole read buffer (not buffer[:n]) to %s", p.instrPos(x), shortCallee(name)))
 				case *ssa.IndexAddr:
 					uses++
@@ -1746,4 +1752,98 @@ func delegatedReader(p *Prog, c *PktClosure) *PktClosure {
 		}
 	}
 	return &PktClosure{Fn: g, Kind: c.Kind, Next: next, Pkt: pkt, depth: c.depth + 1, Owner: c.Owner, Conv: c.Conv}
+}
+
+
+// helperSlicesToLength: the call hands a repository function the read buffer and, in another argument, the length read;
+// in the callee every use of the buffer parameter is a slice expression bounded by that length parameter (or len/cap).
+func helperSlicesToLength(p *Prog, call *ssa.Call, B ssa.Value, isN func(ssa.Value) bool) bool {
+	h := call.Call.StaticCallee()
+	if h == nil || !p.InUniverse(h) || h.Blocks == nil {
+		return false
+	}
+	bi, ni := -1, -1
+	for i, a := range call.Call.Args {
+		if p.origin(a) == B {
+			bi = i
+		} else if p.backwardReaches(a, isN) {
+			if bt, ok := a.Type().Underlying().(*types.Basic); ok && bt.Info()&types.IsInteger != 0 {
+				ni = i
+			}
+		}
+	}
+	if bi < 0 || ni < 0 || bi >= len(h.Params) || ni >= len(h.Params) {
+		return false
+	}
+	bp, np := ssa.Value(h.Params[bi]), ssa.Value(h.Params[ni])
+	ok := true
+	for _, f := range allNested(h) {
+		instrsOf(f, func(in ssa.Instruction) {
+			for _, op := range in.Operands(nil) {
+				if *op == nil || p.origin(*op) != bp {
+					continue
+				}
+				switch x := in.(type) {
+				case *ssa.UnOp, *ssa.DebugRef:
+				case *ssa.Store:
+					if _, isAlloc := cellAddr(x.Addr).(*ssa.Alloc); !isAlloc || x.Val != *op {
+						ok = false
+					}
+				case *ssa.Slice:
+					if x.High == nil || p.origin(x.High) != np {
+						ok = false
+					}
+				case *ssa.Call:
+					if b, isB := x.Call.Value.(*ssa.Builtin); !isB || (b.Name() != "len" && b.Name() != "cap") {
+						ok = false
+					}
+				default:
+					ok = false
+				}
+			}
+		})
+	}
+	return ok
+}
+
+// lengthThroughHelper: the length returned is result k of a repository helper that was handed the read's length n as
+// an argument, and every return of the helper gives that parameter (or the constant 0) as result k.
+func lengthThroughHelper(p *Prog, nV ssa.Value, n0 ssa.Value) bool {
+	ex, ok := p.origin(nV).(*ssa.Extract)
+	if !ok {
+		return false
+	}
+	call, ok := ex.Tuple.(*ssa.Call)
+	if !ok {
+		return false
+	}
+	h := call.Call.StaticCallee()
+	if h == nil || !p.InUniverse(h) || h.Blocks == nil {
+		return false
+	}
+	pi := -1
+	for i, a := range call.Call.Args {
+		if p.origin(a) == n0 && i < len(h.Params) {
+			pi = i
+		}
+	}
+	if pi < 0 {
+		return false
+	}
+	par := ssa.Value(h.Params[pi])
+	for _, b := range h.Blocks {
+		ret, isRet := b.Instrs[len(b.Instrs)-1].(*ssa.Return)
+		if !isRet || b == h.Recover || ex.Index >= len(ret.Results) {
+			continue
+		}
+		r := returnedValue(ret, ex.Index)
+		if p.origin(r) == par {
+			continue
+		}
+		if c, isC := r.(*ssa.Const); isC && c.Value != nil && c.Value.String() == "0" {
+			continue
+		}
+		return false
+	}
+	return true
 }
